@@ -35,6 +35,20 @@ def programs(tier):
     extra.append(("deadline_cancelled_then_left", [
         ["scope", "S1", {"deadline": 4}, [WAIT, CP]], ["probe"],
         ["scope", "S2", {"kind": "move_on_after", "deadline": 2}, [["sleep", 1]]], ["probe"], CP]))
+    # cleanup behind a shield after a *native* cancellation: the native request count the task
+    # entered the scopes with must survive them (a failing child cancels the group's scope in
+    # the very cycle in which the host's wait completes)
+    for child in ([CP, ["raise", "XN"]], [WAIT, ["raise", "XN"]], [["raise", "XN"]]):
+        for tail in ([], [WAIT], [CP]):
+            cleanup = [["scope", "SH", {"shield": True},
+                        [["try", [["tg", "G1", [["spawn", "G1", "c0"]] + tail]], {"group": []}],
+                         ["scope", "S2", {}, [CP]]]]]
+            main = [["try", [WAIT, CP], {"cancel": cleanup, "reraise": False}], CP]
+            for env in ([["ncancel", "main"], ["set", "g"]],
+                        [["ncancel", "main"], ["set", "g"], ["cancel", "S2"]]):
+                progs.append({"objects": {"g": ["gate"]}, "main": main, "tasks": {"c0": child},
+                              "env": env, "label": f"native-then-cleanup child={child[0][0]} "
+                                                   f"tail={len(tail)} env={len(env)}"})
     for name, main in extra:
         for e, env in envs.items():
             progs.append({"objects": {"g": ["gate"]}, "main": main, "tasks": {}, "env": env,
@@ -68,6 +82,10 @@ def check(program, ex):
         # itself; it pays that request back when it is left
         return any(now >= t0 + d for t0, d in active_nt.get(t, ()))
 
+    native_idx = [i for i, e in enumerate(log)
+                  if (e[2] == "envrun" and e[3].startswith("ncancel"))
+                  or (e[2] == "e" and e[5][:2] == ["cancel", "native"])]
+    se_idx = {}
     for i, ev in enumerate(log):
         k = ev[2]
         if k == "b" and ev[5] == "ntimeout":
@@ -80,11 +98,14 @@ def check(program, ex):
             continue
         if k == "se":
             entry[(ev[3], ev[4])] = ev[7]
+            se_idx[(ev[3], ev[4])] = i
         elif k == "sx":
             t, name = ev[3], ev[4]
             c_in = entry.get((t, name))
             c_out = ev[9]
-            if c_in is None or native or ev[6] == ["cancel", "native"]:
+            i0 = se_idx.get((t, name), 0)
+            native_inside = any(i0 <= j <= i for j in native_idx)
+            if c_in is None or native_inside or ev[6] == ["cancel", "native"]:
                 continue  # (a native cancellation, e.g. asyncio.timeout firing, passes through)
             if ref.may_be_cancelled(t, i, i) is None and c_out != c_in:
                 v.append(f"after leaving scope {name} task {t} has cancelling()={c_out}, it was "
